@@ -64,6 +64,43 @@ type VerifWBResult struct {
 	Panic    string
 }
 
+// verifWBDecode decodes slot e of w.msgs as the kernel would see it; ident names the packet an iovec carries.
+func verifWBDecode(w *batchWriter, e int, ident func(e, k int, iov iovec) int) VerifWBEntry {
+	var ve VerifWBEntry
+	hdr := &w.msgs[e].Hdr
+	if hdr.Iov != nil {
+		iovs := unsafe.Slice(hdr.Iov, int(hdr.Iovlen))
+		for k, iov := range iovs {
+			idx := ident(e, k, iov)
+			ve.Idx = append(ve.Idx, idx)
+		}
+	}
+	ve.Seg = -1
+	if hdr.Control != nil && hdr.Controllen > 0 {
+		ve.Seg = -2
+		ctrl := unsafe.Slice(hdr.Control, int(hdr.Controllen))
+		if len(ctrl) >= unix.CmsgLen(2) {
+			ch := (*unix.Cmsghdr)(unsafe.Pointer(&ctrl[0]))
+			if ch.Level == unix.SOL_UDP && ch.Type == unix.UDP_SEGMENT && int(ch.Len) == unix.CmsgLen(2) {
+				ve.Seg = int(binary.NativeEndian.Uint16(ctrl[unix.CmsgLen(0):]))
+			}
+		}
+	}
+	if hdr.Name != nil && hdr.Namelen >= 8 {
+		name := unsafe.Slice(hdr.Name, int(hdr.Namelen))
+		port := binary.BigEndian.Uint16(name[2:4])
+		switch fam := binary.NativeEndian.Uint16(name[0:2]); {
+		case fam == unix.AF_INET && len(name) == unix.SizeofSockaddrInet4:
+			ip, _ := netip.AddrFromSlice(name[4:8])
+			ve.Addr, ve.AddrOK = netip.AddrPortFrom(ip, port), true
+		case fam == unix.AF_INET6 && len(name) == unix.SizeofSockaddrInet6:
+			ip, _ := netip.AddrFromSlice(name[8:24])
+			ve.Addr, ve.AddrOK = netip.AddrPortFrom(ip, port), true
+		}
+	}
+	return ve
+}
+
 // VerifWriteBatch builds a real batchWriter (no socket) with a scratch of capN entries and a scripted sendFn,
 // runs WriteBatch and reports every sendFn invocation. After the script is used up every call answers
 // (0, ENOBUFS): a per-entry rejection.
@@ -80,51 +117,22 @@ func VerifWriteBatch(isV4, gso bool, maxSegs, capN int, bufs [][]byte, addrs []n
 		}
 	}
 	decode := func(e int) VerifWBEntry {
-		var ve VerifWBEntry
-		hdr := &w.msgs[e].Hdr
-		if hdr.Iov != nil {
-			iovs := unsafe.Slice(hdr.Iov, int(hdr.Iovlen))
-			for k, iov := range iovs {
-				idx := -1
-				if iov.Len > 0 && iov.Base != nil {
-					if j, ok := byPtr[iov.Base]; ok && int(iov.Len) == len(bufs[j]) {
-						idx = j
-					}
-				} else if iov.Len == 0 {
-					// an empty datagram has no pointer to recognise it by: take WriteBatch's word for the slot
-					// and check that the packet there is indeed empty
-					j := w.entryEnd[e] - w.entryPkts[e] + k
-					if j >= 0 && j < len(bufs) && len(bufs[j]) == 0 {
-						idx = j
-					}
+		return verifWBDecode(w, e, func(e, k int, iov iovec) int {
+			idx := -1
+			if iov.Len > 0 && iov.Base != nil {
+				if j, ok := byPtr[iov.Base]; ok && int(iov.Len) == len(bufs[j]) {
+					idx = j
 				}
-				ve.Idx = append(ve.Idx, idx)
-			}
-		}
-		ve.Seg = -1
-		if hdr.Control != nil && hdr.Controllen > 0 {
-			ve.Seg = -2
-			ctrl := unsafe.Slice(hdr.Control, int(hdr.Controllen))
-			if len(ctrl) >= unix.CmsgLen(2) {
-				ch := (*unix.Cmsghdr)(unsafe.Pointer(&ctrl[0]))
-				if ch.Level == unix.SOL_UDP && ch.Type == unix.UDP_SEGMENT && int(ch.Len) == unix.CmsgLen(2) {
-					ve.Seg = int(binary.NativeEndian.Uint16(ctrl[unix.CmsgLen(0):]))
+			} else if iov.Len == 0 {
+				// an empty datagram has no pointer to recognise it by: take WriteBatch's word for the slot
+				// and check that the packet there is indeed empty
+				j := w.entryEnd[e] - w.entryPkts[e] + k
+				if j >= 0 && j < len(bufs) && len(bufs[j]) == 0 {
+					idx = j
 				}
 			}
-		}
-		if hdr.Name != nil && hdr.Namelen >= 8 {
-			name := unsafe.Slice(hdr.Name, int(hdr.Namelen))
-			port := binary.BigEndian.Uint16(name[2:4])
-			switch fam := binary.NativeEndian.Uint16(name[0:2]); {
-			case fam == unix.AF_INET && len(name) == unix.SizeofSockaddrInet4:
-				ip, _ := netip.AddrFromSlice(name[4:8])
-				ve.Addr, ve.AddrOK = netip.AddrPortFrom(ip, port), true
-			case fam == unix.AF_INET6 && len(name) == unix.SizeofSockaddrInet6:
-				ip, _ := netip.AddrFromSlice(name[8:24])
-				ve.Addr, ve.AddrOK = netip.AddrPortFrom(ip, port), true
-			}
-		}
-		return ve
+			return idx
+		})
 	}
 
 	last := map[int]VerifWBEntry{}
@@ -177,4 +185,85 @@ func VerifWriteBatchConsts() map[string]uint64 {
 		"wb_eio":             uint64(unix.EIO),
 		"wb_enobufs":         uint64(unix.ENOBUFS),
 	}
+}
+
+// VerifWBBatch is one WriteBatch invocation seen at the udp.Conn boundary.
+type VerifWBBatch struct {
+	IDs   []int // per buffer passed in: the id stored in its first 8 bytes (-1: shorter than 8 bytes)
+	Calls []VerifWBCall
+	Ret   int
+	Err   bool
+}
+
+// VerifWBWriter is a real batchWriter (no socket) with a scripted sendFn that lives across WriteBatch calls, for
+// driving batch.SendBatch. Packets are identified by CONTENT: the little-endian uint64 in their first 8 bytes
+// (what the kernel would put on the wire), so a datagram that is handed over twice is seen twice.
+type VerifWBWriter struct {
+	w       *batchWriter
+	script  []VerifWBOutcome
+	k       int
+	Batches []VerifWBBatch
+}
+
+func verifWBContentID(b []byte) int {
+	if len(b) < 8 {
+		return -1
+	}
+	return int(binary.LittleEndian.Uint64(b[:8]))
+}
+
+func VerifNewWBWriter(isV4, gso bool, maxSegs, capN int, script []VerifWBOutcome) *VerifWBWriter {
+	w := &batchWriter{fd: -1, isV4: isV4, l: slog.New(slog.DiscardHandler)}
+	w.gsoSupported = gso
+	w.maxGSOSegments = maxSegs
+	w.prepareWriteMessages(capN, true)
+	return &VerifWBWriter{w: w, script: script}
+}
+
+func (v *VerifWBWriter) GsoSupported() bool { return v.w.gsoSupported }
+
+// WriteBatch makes VerifWBWriter usable as the `out` of batch.NewSendBatch.
+func (v *VerifWBWriter) WriteBatch(bufs [][]byte, addrs []netip.AddrPort) (int, error) {
+	w := v.w
+	var b VerifWBBatch
+	for _, buf := range bufs {
+		b.IDs = append(b.IDs, verifWBContentID(buf))
+	}
+	last := map[int]VerifWBEntry{}
+	w.sendFn = func(start, n int) (int, error) {
+		if v.k > 100000 {
+			panic("verif: more than 100000 sendFn calls")
+		}
+		item := VerifWBOutcome{Sent: 0, Errno: int(unix.ENOBUFS)}
+		if v.k < len(v.script) {
+			item = v.script[v.k]
+		}
+		v.k++
+		sent := item.Sent
+		if sent > n {
+			sent = n
+		}
+		call := VerifWBCall{Start: start, N: n, Sent: sent, Errno: item.Errno}
+		for e := start; e < start+n && e < len(w.msgs); e++ {
+			ve := verifWBDecode(w, e, func(e, k int, iov iovec) int {
+				if iov.Base == nil || iov.Len < 8 {
+					return -1
+				}
+				return verifWBContentID(unsafe.Slice(iov.Base, int(iov.Len)))
+			})
+			if old, ok := last[e]; !ok || !verifWBSame(old, ve) {
+				call.Updates = append(call.Updates, VerifWBUpdate{Slot: e, Entry: ve})
+				last[e] = ve
+			}
+		}
+		b.Calls = append(b.Calls, call)
+		if item.Errno != 0 {
+			return sent, &net.OpError{Op: "sendmmsg", Err: unix.Errno(item.Errno)}
+		}
+		return sent, nil
+	}
+	n, err := w.WriteBatch(bufs, addrs)
+	b.Ret, b.Err = n, err != nil
+	v.Batches = append(v.Batches, b)
+	return n, err
 }
